@@ -417,14 +417,39 @@ def subArgs (enc : List (String × V2)) (key : String) : R Args :=
   | some (.args a) => pure a
   | some (.val _) => throw .attributeError
 
-def makeConfig (s : Settings) : R Config := do
-  let h ← fromConfig (withDefaultName (← sectionArgs s "hashing") defaultHasher)
-  let c ← fromConfig (withDefaultName (← sectionArgs s "chunking") defaultChunker)
-  match (← encryptionSettings s) with
-  | none => pure { hashing := h, chunking := c, cipher := none }
-  | some enc =>
-    let ci ← fromConfig (withDefaultName (← subArgs enc "cipher") defaultCipher)
-    pure { hashing := h, chunking := c, cipher := some ci }
+/-- one slot of `_make_config`: default name, `from_config`, and — if the source has one (`Gen.kindChecks`, none today) —
+the `issubclass(type, adapters.<Base>)` check -/
+def slotConfig (slot : String) (kv : Args) (dflt : String) : R (AdapterRow × Args) :=
+  match fromConfig (withDefaultName kv dflt) with
+  | .error e => .error e
+  | .ok p =>
+    match kindChecks.lookup slot with
+    | some base => if hasKind p.1 base then .ok p else .error .replicatError
+    | none => .ok p
+
+def makeConfig (s : Settings) : R Config :=
+  match sectionArgs s "hashing" with
+  | .error e => .error e
+  | .ok kvh =>
+    match slotConfig "hashing" kvh defaultHasher with
+    | .error e => .error e
+    | .ok h =>
+      match sectionArgs s "chunking" with
+      | .error e => .error e
+      | .ok kvc =>
+        match slotConfig "chunking" kvc defaultChunker with
+        | .error e => .error e
+        | .ok c =>
+          match encryptionSettings s with
+          | .error e => .error e
+          | .ok none => .ok { hashing := h, chunking := c, cipher := none }
+          | .ok (some enc) =>
+            match subArgs enc "cipher" with
+            | .error e => .error e
+            | .ok kvci =>
+              match slotConfig "cipher" kvci defaultCipher with
+              | .error e => .error e
+              | .ok ci => .ok { hashing := h, chunking := c, cipher := some ci }
 
 def constructCipher (ci : Option (AdapterRow × Args)) : R (Option Inst) :=
   match ci with
@@ -692,7 +717,7 @@ def hashingInputOk (s : Settings) : Bool :=
   match sectionArgs s "hashing" with
   | .error _ => false
   | .ok kv =>
-    match fromConfig (withDefaultName kv defaultHasher) with
+    match slotConfig "hashing" kv defaultHasher with
     | .ok p => hasherUsable p
     | .error _ => true          -- rejected anyway
 
@@ -700,12 +725,21 @@ def chunkingInputOk (s : Settings) : Bool :=
   match sectionArgs s "chunking" with
   | .error _ => false
   | .ok kv =>
-    match fromConfig (withDefaultName kv defaultChunker) with
+    match slotConfig "chunking" kv defaultChunker with
     | .ok p => chunkerUsable p
     | .error _ => true
 
 def checkedElsewhere (s : Option Settings) : Bool :=
   hashingInputOk (s.getD []) && chunkingInputOk (s.getD [])
+
+/-- number of `if …: raise` guards the source currently has at the head of an adapter's `__init__` -/
+def guardCount (name : String) : Nat :=
+  match findRow name with
+  | some r => r.guards.length
+  | none => 0
+
+/-- does `_make_config` check the adapter kind of this slot? -/
+def kindChecked (slot : String) : Bool := (kindChecks.lookup slot).isSome
 
 /-! ## add-key: acceptance of the settings -/
 
